@@ -49,12 +49,16 @@ type Case struct {
 	// IncludeHost: 1: Options.IncludeHost without a host among the common tags (the reporter adds the
 	// machine's host name as one more common tag); 2: with a common tag host=custom-host (kept);
 	// 3: with a common tag host="" (replaced by the host name). The tag is part of every datagram.
-	IncludeHost int     `json:"includeHost,omitempty"`
-	Queue       int     `json:"queue"`
-	PreAge      int     `json:"preAge,omitempty"`
-	Metrics     []MSpec `json:"metrics"`
-	Stream      []SOp   `json:"stream"`
-	Strategy    string  `json:"strategy"`
+	IncludeHost int `json:"includeHost,omitempty"`
+	// Precision: Options.HistogramBucketTagPrecision (0: the default 6) - the bucket-range tag values
+	// get longer; Internal: Options.InternalTags - the reporter's own metrics get bigger
+	Precision uint    `json:"precision,omitempty"`
+	Internal  pbt.M   `json:"internal,omitempty"`
+	Queue     int     `json:"queue"`
+	PreAge    int     `json:"preAge,omitempty"`
+	Metrics   []MSpec `json:"metrics"`
+	Stream    []SOp   `json:"stream"`
+	Strategy  string  `json:"strategy"`
 	// Pred: before the reporter under test is built, ANOTHER reporter exists in the process (its own
 	// destination): 1 same wire protocol, closed again; 2 the OTHER wire protocol, closed again; 3 the
 	// other protocol, still open during the whole case. Reporters are independent objects: what one
@@ -93,6 +97,15 @@ func gen(t *rapid.T) Case {
 	c.Common = genTags(t, 8)
 	if rapid.IntRange(0, 3).Draw(t, "includeHost?") == 0 {
 		c.IncludeHost = rapid.IntRange(1, 3).Draw(t, "includeHost")
+	}
+	if rapid.IntRange(0, 3).Draw(t, "precision?") == 0 {
+		c.Precision = uint(rapid.SampledFrom([]int{1, 2, 12, 40}).Draw(t, "precision"))
+	}
+	if rapid.IntRange(0, 3).Draw(t, "internal?") == 0 {
+		c.Internal = pbt.M{}
+		for i, n := 0, rapid.IntRange(1, 3).Draw(t, "ninternal"); i < n; i++ {
+			c.Internal[pbt.S(rapid.SampledFrom([]string{"team", "host", "instance", "version", "dc"}).Draw(t, "ik"))] = pbt.S(strings.Repeat("i", rapid.IntRange(0, 200).Draw(t, "ivlen")))
+		}
 	}
 	c.Queue = rapid.SampledFrom([]int{1, 2, 16, 4096}).Draw(t, "queue")
 	c.Pred = rapid.SampledFrom([]int{0, 0, 0, 1, 2, 2, 3}).Draw(t, "pred")
@@ -236,8 +249,19 @@ func run(c Case) (pbt.Outcome, error) {
 		}
 		return m
 	}
-	bucketTags := []m3thrift.MetricTag{{Name: "bucketid", Value: "0000"}, {Name: "bucket", Value: strings.Repeat("x", 60)}}
-	internalTags := []m3thrift.MetricTag{{Name: "version", Value: tally.Version}, {Name: "host", Value: "global"}, {Name: "instance", Value: "global"}}
+	bucketLen := 60
+	if n := 2*(13+int(c.Precision)) + 1; n > bucketLen {
+		bucketLen = n // "<lower>-<upper>": bounds below 2e10, each rendered with that many decimals
+	}
+	bucketTags := []m3thrift.MetricTag{{Name: "bucketid", Value: "0000"}, {Name: "bucket", Value: strings.Repeat("x", bucketLen)}}
+	itm := map[string]string{"version": tally.Version, "host": "global", "instance": "global"}
+	for k, v := range c.Internal {
+		itm[string(k)] = string(v)
+	}
+	var internalTags []m3thrift.MetricTag
+	for k, v := range itm {
+		internalTags = append(internalTags, m3thrift.MetricTag{Name: k, Value: v})
+	}
 	L := m3h.MessageSize(c.Binary, math.MaxInt32, m3thrift.MetricBatch{CommonTags: common, Metrics: []m3thrift.Metric{
 		worst("tally.internal.num-write-errors", append(append([]m3thrift.MetricTag{}, internalTags...), bucketTags...), "counter")}})
 	for i, ms := range c.Metrics {
@@ -327,6 +351,7 @@ func run(c Case) (pbt.Outcome, error) {
 	r, err := m3.NewReporter(m3.Options{
 		HostPorts: []string{sink.Addr}, Service: "svc", Env: "test", CommonTags: commonOpt, IncludeHost: c.IncludeHost > 0,
 		Protocol: proto, MaxQueueSize: c.Queue, MaxPacketSizeBytes: int32(maxPacket),
+		HistogramBucketTagPrecision: c.Precision, InternalTags: c.Internal.Std(),
 	})
 	if err != nil {
 		return out, fmt.Errorf("NewReporter(MaxPacketSizeBytes=%d, lower bound %d): %v", maxPacket, L, err)
